@@ -40,6 +40,17 @@ CHECKS = {
         note='Seed corpus = inputs of the repository unit tests (committed) plus encodings composed from generated '
              'objects; leak identity = exception type + innermost cryptoparser frame.',
         design='3 (C02)'),
+    'C03': dict(
+        technique='metamorphic fuzzing: seeds, seed+suffix, mutants and concatenations per class; relations between '
+                  'parse_immutable / parse_mutable / parse_exact_size, re-parse of buf[:n] and buf[:n]+suffix for '
+                  'framing units, and an independent frame-header reader as oracle for n',
+        text='For every concrete class ~400 (thorough 8000) buffers derived from valid encodings are parsed through the '
+             'three entry points and the outcomes are related (0<=n<=len, in-place variant removes exactly n bytes '
+             'and leaves the buffer untouched on failure, exact-size succeeds iff n==len); the ~25 framing-unit '
+             'classes get 6x the budget plus the self-delimiting and declared-length clauses. Sampling.',
+        note='declared() readers are written from the specifications (DESIGN appendix B); structural equality '
+             'compares asn1crypto values by DER.',
+        design='3 (C03)'),
 }
 
 NOT_YET = {}
